@@ -29,6 +29,7 @@ template <class C> struct Api;
     static int ParseSingleUriExMm(Uri *u, const Ch *f, const Ch *a, const Ch **e, UriMemoryManager *m) { \
       return uriParseSingleUriExMm##S(u, f, a, e, m);                                               \
     }                                                                                               \
+    static int ParseIpFourAddress(unsigned char *o, const Ch *f, const Ch *a) { return uriParseIpFourAddress##S(o, f, a); } \
     static void FreeUriMembers(Uri *u) { uriFreeUriMembers##S(u); }                                 \
     static int FreeUriMembersMm(Uri *u, UriMemoryManager *m) { return uriFreeUriMembersMm##S(u, m); } \
     static Ch *EscapeEx(const Ch *f, const Ch *a, Ch *o, UriBool s2p, UriBool nb) {                 \
